@@ -23,6 +23,7 @@ WORK = os.path.join(VERIF, "work")
 HARNESS = os.path.join(VERIF, "harness")
 HBIN = os.path.join(HARNESS, "bin", "harness")
 G2L = os.path.join(VERIF, "tools", "bin", "go2lean")
+RESPATHS = os.path.join(VERIF, "tools", "bin", "respaths")
 DRV = os.path.join(LEAN, ".lake", "build", "bin", "sonicdrv")
 SPEC = os.path.join(LEAN, ".lake", "build", "bin", "sonicspec")
 ALLOWED_AXIOMS = {"propext", "Classical.choice", "Quot.sound"}
@@ -76,13 +77,21 @@ def build_tools():
         rc, out = run(["go", "build", "-o", G2L, "."], cwd=os.path.join(VERIF, "tools", "go2lean"), env=goenv(), timeout=300)
         if rc != 0:
             raise RuntimeError("cannot build go2lean:\n" + out)
+    # respaths: the resource path-table extractor (C13)
+    rsrc = os.path.join(VERIF, "tools", "respaths", "main.go")
+    if not os.path.exists(RESPATHS) or os.path.getmtime(RESPATHS) < os.path.getmtime(rsrc):
+        rc, out = run(["go", "build", "-o", RESPATHS, "."], cwd=os.path.join(VERIF, "tools", "respaths"), env=goenv(), timeout=300)
+        if rc != 0:
+            raise RuntimeError("cannot build respaths:\n" + out)
 
 
 def regen():
     """Tie T: regenerate Sonic/Gen/*.lean from /repo. Returns (ok, log)."""
     build_tools()
     rc, out = run([G2L, os.path.join(VERIF, "tools", "go2lean", "spec.json"), REPO, os.path.join(LEAN, "Sonic", "Gen")], timeout=120)
-    return rc == 0, out
+    # resource path table (C13): untranslatable functions are recorded inside the table and judged by the theorems
+    rc2, out2 = run([RESPATHS, os.path.join(VERIF, "tools", "respaths", "config.json"), REPO, os.path.join(LEAN, "Sonic", "Gen")], timeout=120)
+    return rc == 0 and rc2 == 0, out + out2
 
 
 def lake_build(targets, timeout=1500):
